@@ -15,6 +15,7 @@ from the last `reset` rule on.  `Spec.*` is the executable specification printed
 -/
 import RioModel.Proofs.ActionObs
 import RioModel.Proofs.ActionSort
+import RioModel.Props.C13
 set_option linter.unusedSimpArgs false
 
 namespace Rio.C05
@@ -226,6 +227,23 @@ theorem log_table (C : List Rule) (c : Nat) :
     | nil => cases admits p c <;> simp
     | cons q t' =>
       cases admits p c <;> cases hq : unconditional q <;> cases hp : unconditional p <;> simp [hq, hp]
+
+/-- End to end for `filter_headers` (with C13's `fold_spec`): the response headers returned for code
+`c` are the left fold of the five reference header operations over the header filters of the
+contributing rules admitting `c`, in priority order, followed by the `X-RedirectionIo-RuleIds` header
+listing the admitted rules (those without header filter first: a re-inserted id moves to the back). -/
+theorem filter_headers_end_to_end (lower : String → String) (showId : RuleId → String)
+    (R : List Rule) (q : Req) (draw : Rule → Nat) (hs : List Rio.Header.Header) (c : Nat) :
+    let C := contributing q draw (sortRules R)
+    ((fromRoutesRule R q draw).filterHeadersFull lower showId hs c true).1 =
+      Rio.Header.refFold lower ((headerFiltersAt q C c).map toHeaderOp) hs ++
+        [⟨"X-RedirectionIo-RuleIds",
+          String.intercalate ";" ((dedupLast (insertedBy q C c .headers)).map showId)⟩] := by
+  intro C
+  have e : fromRoutesRule R q draw = withApplied (Spec.action q C) (dedupLast []) := action_eq_spec R q draw
+  unfold Action.filterHeadersFull
+  rw [e, filterHeaders_spec, foldl_lhsInsert_dedupLast]
+  simp only [if_true, List.nil_append, Rio.C13.fold_spec]
 
 /-! ### Attribution -/
 
